@@ -131,8 +131,8 @@ Proof.
     set (e := update_data e0 i (outputs e0 from)). assert (X0 : pre e0 e) by apply pre_update_data.
     match goal with |- pre e0 (let '(isr, e1) := ?X in _) => assert (X1 : pre e (snd X)); [|destruct X as [isr e1]; cbn [snd] in X1] end.
     { destruct (kind e i).
-      - destruct (is (st e i) SRunning); [apply pre_set_state | apply pre_refl].
-      - destruct (is (st e i) SRunning); [apply pre_set_state|]. destruct (is (st e i) SSkipped); apply pre_refl.
+      - destruct (is (st e i) SRunning); [|apply pre_refl]. destruct (forallb _ _); [apply pre_set_state | apply pre_refl].
+      - destruct (is (st e i) SRunning); [destruct (forallb _ _); [apply pre_set_state | apply pre_refl]|]. destruct (is (st e i) SSkipped); apply pre_refl.
       - destruct (is (st e i) SRunning).
         + match goal with |- context [ (fix scan (l : list nat) (ee : eng) {struct l} : option eng * eng := @?body scan l ee) ] =>
             set (scan := (fix scan (l : list nat) (ee : eng) {struct l} : option eng * eng := body scan l ee))
